@@ -167,6 +167,9 @@ class _DocProxy:
         if self.dry_run and isinstance(value, Mapping):
             # Nested mappings must not be modified in a dry run either.
             return _DocProxy(value, dry_run=True)
+        elif self.dry_run and not isinstance(value, (str, bytes)):
+            # Neither must nested lists: hand out a plain copy.
+            return value() if callable(value) else deepcopy(value)
         return value
 
     def __setitem__(self, key, value):
